@@ -705,7 +705,7 @@ def inline_call(crate, target, args):
         return None  # results built by effects stay opaque calls (summarised by the rules)
     if rty in ("bool", "char", "i8", "i16", "i32", "i64", "i128", "isize", "u8", "u16", "u32", "u64", "u128", "usize", "f32", "f64"):
         return None  # predicates / computed scalars stay calls (expanded through their return table when needed)
-    if len([d for d in target.defs.get(0, []) if d[2] == []]) > 2 or any(t["t"] is None for (_, t) in target.calls):
+    if len([d for d in target.defs.get(0, []) if d[2] == []]) > 2 or any(t["t"] is None for (_, t) in target.calls) or target.loops:
         return None  # dispatch tables / functions with a diverging arm are summarised by their return table
     _inline_stack.append(target.path)
     try:
